@@ -213,6 +213,24 @@ class Interp:
             outs = self.exec_block(info.node.body, env)
         finally:
             self.call_stack.pop()
+        self.last_writeback = None
+        wb_names = set()
+        for kind, (e, _) in outs.items():
+            if kind in (RETURN, NORMAL) and e is not None:
+                wb_names |= e.mutated_params & e.caller_owned
+        if wb_names:
+            wb = {}
+            for nm_ in wb_names:
+                acc_ = None
+                for kind, (e, _) in outs.items():
+                    if kind in (RETURN, NORMAL) and e is not None and nm_ in e.vars:
+                        acc_ = e.vars[nm_] if acc_ is None else self.join_vals(acc_, e.vars[nm_], set())
+                if acc_ is not None:
+                    wb[nm_] = acc_
+            if gen:
+                self.event("lost_mutation", info.node, what=f"a generator function changes the containers {sorted(wb)} it received")
+            else:
+                self.last_writeback = wb
         if gen:
             acc = None
             for kind, (e, _) in outs.items():
@@ -418,9 +436,9 @@ class Interp:
             while e is not None:
                 if target_expr.id in e.vars:
                     if target_expr.id in e.caller_owned:
-                        # the container is the caller's object: abstract containers are values, so the caller will not see this change
-                        e.caller_owned.discard(target_expr.id)
-                        self.event("lost_mutation", st, what=f"`{target_expr.id}` is a container received as an argument and changed in place: the caller's view of it is not updated")
+                        # the container is the caller's object: abstract containers are values, so the change is handed back when the
+                        # function returns (exec_function / call_value write it to the caller's l-value)
+                        e.mutated_params.add(target_expr.id)
                     e.vars[target_expr.id] = new
                     return
                 e = e.parent
@@ -1308,6 +1326,27 @@ class Interp:
                 kwargs[k.arg] = self.eval(k.value, env)
         return self.call_value(f, args, kwargs, n, env)
 
+    def _write_back(self, info, wb: dict, args: list, node, env) -> None:
+        """Containers the callee changed in place (they were the caller's objects): the caller's l-values receive the final value."""
+        params = [a.arg for a in info.node.args.args]
+        call = node if isinstance(node, ast.Call) else None
+        plain = call is not None and env is not None and not any(isinstance(a, ast.Starred) for a in call.args) and not any(k.arg is None for k in call.keywords)
+        off = len(args) - len(call.args) if plain else 0  # bound methods: self was prepended
+        for pname, val in wb.items():
+            expr = None
+            if plain:
+                kw = next((k.value for k in call.keywords if k.arg == pname), None)
+                if kw is not None:
+                    expr = kw
+                elif pname in params and 0 <= params.index(pname) - off < len(call.args):
+                    expr = call.args[params.index(pname) - off]
+            if isinstance(expr, (ast.Name, ast.Attribute)):
+                self.rebind(expr, val, env, node)
+            elif isinstance(expr, (ast.List, ast.Dict, ast.Set, ast.Tuple, ast.ListComp, ast.DictComp, ast.SetComp, ast.Constant)) or (isinstance(expr, ast.Call) and isinstance(expr.func, ast.Name) and expr.func.id in ("list", "dict", "set", "deque")):
+                pass  # a temporary: nobody else sees it
+            else:
+                self.event("lost_mutation", node, what=f"`{pname}` is a container received as an argument and changed in place by {info.short}; the caller's view of it could not be updated")
+
     def call_value(self, f: AVal, args: list, kwargs: dict, node, env) -> AVal:
         caller = self.call_stack[-1].qualname if self.call_stack else "<entry>"
         if isinstance(f, FuncV):
@@ -1322,9 +1361,13 @@ class Interp:
                     return r
             self.site_stack.append((getattr(node, "lineno", 0), getattr(node, "col_offset", 0)))
             try:
-                return self.exec_function(f.info, bound, f.closure, f.info.cls)
+                result = self.exec_function(f.info, bound, f.closure, f.info.cls)
             finally:
                 self.site_stack.pop()
+            wb, self.last_writeback = getattr(self, "last_writeback", None), None
+            if wb:
+                self._write_back(f.info, wb, args, node, env)
+            return result
         if isinstance(f, BoundV):
             return self.call_value(f.func, [f.self_obj] + list(args), kwargs, node, env)
         if isinstance(f, PartialV):
